@@ -702,11 +702,15 @@ theorem C08_empty_struct (ext : Ext) (d : Dest) :
 
 /-! ## the struct binder -/
 
-/-- what a field must hold after a successful walk -/
+/-- what a field must hold after a successful walk: its previous value if the source has no
+    key for it, else the conversion of its text(s) — whatever it held before -/
 def fieldHolds (ext : Ext) (f : Field) (v : FVal) : Prop :=
-  match f.wrap with
-  | .scalar | .ptr => ∃ x, v = .one x ∧ structElem ext f.elem (f.values.headD []) = some x
-  | _ => ∃ xs, v = .many xs ∧ f.values.map (structElem ext f.elem) = xs.map some
+  match f.values with
+  | none => v = f.init
+  | some vals =>
+    match f.wrap with
+    | .scalar | .ptr => ∃ x, v = .one x ∧ structElem ext f.elem (vals.headD []) = some x
+    | _ => ∃ xs, v = .many xs ∧ vals.map (structElem ext f.elem) = xs.map some
 
 theorem structElems_spec (ext : Ext) (e : Elem) (ss : List (List Char)) :
     ∀ xs, structElems ext e ss = some xs ↔ ss.map (structElem ext e) = xs.map some := by
@@ -744,31 +748,37 @@ theorem bindField_ok (ext : Ext) (f : Field) (v : FVal) (h : bindField ext f = .
   unfold bindField at h
   unfold fieldHolds
   cases hv : f.values with
-  | nil => simp [hv] at h
-  | cons v0 vs =>
-    simp only [hv] at h
-    cases hw : f.wrap <;> simp only [hw] at h ⊢
-    · split at h
-      · rename_i x hx; cases h; exact ⟨x, rfl, by simpa using hx⟩
-      · cases h
-    · split at h
-      · rename_i x hx; cases h; exact ⟨x, rfl, by simpa using hx⟩
-      · cases h
-    · split at h
-      · rename_i xs hx; cases h; exact ⟨xs, rfl, (structElems_spec ext _ _ xs).1 hx⟩
-      · cases h
-    · split at h
-      · rename_i xs hx; cases h; exact ⟨xs, rfl, (structElems_spec ext _ _ xs).1 hx⟩
-      · cases h
-    · split at h
-      · rename_i xs hx; cases h; exact ⟨xs, rfl, (structElems_spec ext _ _ xs).1 hx⟩
-      · cases h
+  | none => simp only [hv] at h ⊢; cases h; rfl
+  | some vals =>
+    cases vals with
+    | nil => simp [hv] at h
+    | cons v0 vs =>
+      simp only [hv] at h ⊢
+      cases hw : f.wrap <;> simp only [hw] at h ⊢
+      · split at h
+        · rename_i x hx; cases h; exact ⟨x, rfl, by simpa using hx⟩
+        · cases h
+      · split at h
+        · rename_i x hx; cases h; exact ⟨x, rfl, by simpa using hx⟩
+        · cases h
+      · split at h
+        · rename_i xs hx; cases h; exact ⟨xs, rfl, (structElems_spec ext _ _ xs).1 hx⟩
+        · cases h
+      · split at h
+        · rename_i xs hx; cases h; exact ⟨xs, rfl, (structElems_spec ext _ _ xs).1 hx⟩
+        · cases h
+      · split at h
+        · rename_i xs hx; cases h; exact ⟨xs, rfl, (structElems_spec ext _ _ xs).1 hx⟩
+        · cases h
 
-/-- a field fails iff one of the texts it converts is not convertible -/
+/-- a field fails iff the source has a key for it and one of the texts it converts is not convertible -/
 def fieldBad (ext : Ext) (f : Field) : Prop :=
-  match f.wrap with
-  | .scalar | .ptr => structElem ext f.elem (f.values.headD []) = none
-  | _ => ∃ s ∈ f.values, structElem ext f.elem s = none
+  match f.values with
+  | none => False
+  | some vals =>
+    match f.wrap with
+    | .scalar | .ptr => structElem ext f.elem (vals.headD []) = none
+    | _ => ∃ s ∈ vals, structElem ext f.elem s = none
 
 theorem structElems_none (ext : Ext) (e : Elem) (ss : List (List Char)) :
     structElems ext e ss = none ↔ ∃ s ∈ ss, structElem ext e s = none := by
@@ -783,37 +793,42 @@ theorem structElems_none (ext : Ext) (e : Elem) (ss : List (List Char)) :
       rw [← ih]
       cases structElems ext e ss <;> simp
 
-theorem bindField_cases (ext : Ext) (f : Field) (hne : f.values ≠ []) :
+theorem bindField_cases (ext : Ext) (f : Field) (hne : f.values ≠ some []) :
     (fieldBad ext f ∧ ∃ v, bindField ext f = .err v) ∨ (¬ fieldBad ext f ∧ ∃ v, bindField ext f = .ok v) := by
   unfold bindField fieldBad
   cases hv : f.values with
-  | nil => exact absurd hv hne
-  | cons v0 vs =>
-    simp only [List.headD_cons]
-    cases hw : f.wrap <;> simp only
-    · cases h : structElem ext f.elem v0 <;> simp
-    · cases h : structElem ext f.elem v0 <;> simp
-    · cases h : structElems ext f.elem (v0 :: vs) with
-      | none => exact Or.inl ⟨(structElems_none ext _ _).1 h, by simp⟩
-      | some xs =>
-        refine Or.inr ⟨?_, by simp⟩
-        intro hb
-        rw [(structElems_none ext _ _).2 hb] at h; cases h
-    · cases h : structElems ext f.elem (v0 :: vs) with
-      | none => exact Or.inl ⟨(structElems_none ext _ _).1 h, by simp⟩
-      | some xs =>
-        refine Or.inr ⟨?_, by simp⟩
-        intro hb
-        rw [(structElems_none ext _ _).2 hb] at h; cases h
-    · cases h : structElems ext f.elem (v0 :: vs) with
-      | none => exact Or.inl ⟨(structElems_none ext _ _).1 h, by simp⟩
-      | some xs =>
-        refine Or.inr ⟨?_, by simp⟩
-        intro hb
-        rw [(structElems_none ext _ _).2 hb] at h; cases h
+  | none => simp
+  | some vals =>
+    cases vals with
+    | nil => exact absurd hv hne
+    | cons v0 vs =>
+      simp only [List.headD_cons]
+      cases hw : f.wrap <;> simp only
+      · cases h : structElem ext f.elem v0 <;> simp
+      · cases h : structElem ext f.elem v0 <;> simp
+      · cases h : structElems ext f.elem (v0 :: vs) with
+        | none => exact Or.inl ⟨(structElems_none ext _ _).1 h, by simp⟩
+        | some xs =>
+          refine Or.inr ⟨?_, by simp⟩
+          intro hb
+          rw [(structElems_none ext _ _).2 hb] at h; cases h
+      · cases h : structElems ext f.elem (v0 :: vs) with
+        | none => exact Or.inl ⟨(structElems_none ext _ _).1 h, by simp⟩
+        | some xs =>
+          refine Or.inr ⟨?_, by simp⟩
+          intro hb
+          rw [(structElems_none ext _ _).2 hb] at h; cases h
+      · cases h : structElems ext f.elem (v0 :: vs) with
+        | none => exact Or.inl ⟨(structElems_none ext _ _).1 h, by simp⟩
+        | some xs =>
+          refine Or.inr ⟨?_, by simp⟩
+          intro hb
+          rw [(structElems_none ext _ _).2 hb] at h; cases h
 
-/-- **struct binder, exactness** — if the walk reports no error, every field holds the
-    conversion of its text(s) -/
+/-- **struct binder, exactness** — if the walk reports no error, every field for which the
+    source carries a key holds the conversion of its text(s), WHATEVER it held before (a
+    pre-populated destination is overwritten, in particular by the zero value for empty text);
+    every other field holds what it held before -/
 theorem C08_struct_exact (ext : Ext) (fs : List Field) :
     ∀ vals, structBind ext fs = (.ok, vals) →
       vals.length = fs.length ∧ ∀ p ∈ fs.zip vals, fieldHolds ext p.1 p.2 := by
@@ -839,7 +854,7 @@ theorem C08_struct_exact (ext : Ext) (fs : List Field) :
 
 /-- **struct binder, never silent** — the walk reports 400 iff some field's text is not
     convertible (given what net/http guarantees: no empty value lists), and it never panics -/
-theorem C08_struct_400 (ext : Ext) (fs : List Field) (hne : ∀ f ∈ fs, f.values ≠ []) :
+theorem C08_struct_400 (ext : Ext) (fs : List Field) (hne : ∀ f ∈ fs, f.values ≠ some []) :
     ((structBind ext fs).1 = .bad ↔ ∃ f ∈ fs, fieldBad ext f)
     ∧ ((structBind ext fs).1 = .ok ↔ ∀ f ∈ fs, ¬ fieldBad ext f) := by
   induction fs with
@@ -860,7 +875,7 @@ theorem C08_struct_400 (ext : Ext) (fs : List Field) (hne : ∀ f ∈ fs, f.valu
 /-- **C08_no_panic** — the only partial operation on the binding path is `inputValue[0]`;
     with the data net/http produces (every key has at least one value) it cannot fail.  The
     value binder has no partial operation at all (`Out` has no panic outcome). -/
-theorem C08_no_panic (ext : Ext) (fs : List Field) (hne : ∀ f ∈ fs, f.values ≠ []) :
+theorem C08_no_panic (ext : Ext) (fs : List Field) (hne : ∀ f ∈ fs, f.values ≠ some []) :
     (structBind ext fs).1 ≠ .panic := by
   have := C08_struct_400 ext fs hne
   intro hp
@@ -868,6 +883,39 @@ theorem C08_no_panic (ext : Ext) (fs : List Field) (hne : ∀ f ∈ fs, f.values
   · rw [this.1.2 hb] at hp; cases hp
   · have : (structBind ext fs).1 = .ok := this.2.2 (fun f hf hbad => hb ⟨f, hf, hbad⟩)
     rw [this] at hp; cases hp
+
+/-- **empty text overwrites** — a scalar integer or bool field whose key is present with empty
+    text ends up holding 0 / false whatever it held before (struct with defaults, reused
+    struct, a value bound from an earlier source) -/
+theorem C08_empty_overwrites (ext : Ext) (f : Field) (rest : List (List Char))
+    (hw : f.wrap = .scalar) (hv : f.values = some ([] :: rest)) :
+    (∀ d, f.elem = .num d → bindField ext f = .ok (.one (.int 0)))
+    ∧ (f.elem = .bool → bindField ext f = .ok (.one (.bool false))) := by
+  constructor
+  · intro d he
+    unfold bindField
+    simp only [hv, hw, he, (C08_empty_struct ext d).1]
+  · intro he
+    unfold bindField
+    simp only [hv, hw, he, (C08_empty_struct ext .vbUnix).2.1]
+
+/-- two sources in sequence (path params, then the query string): the second walk starts from
+    what the first one left and obeys the same exactness -/
+theorem C08_struct2_exact (ext : Ext) (fs : List Field) (second : List (Option (List (List Char))))
+    (vals : List FVal) (h : structBind2 ext fs second = (.ok, vals)) :
+    ∃ vals1, structBind ext fs = (.ok, vals1)
+      ∧ vals.length = (rebase fs vals1 second).length
+      ∧ ∀ p ∈ (rebase fs vals1 second).zip vals, fieldHolds ext p.1 p.2 := by
+  unfold structBind2 at h
+  cases h1 : structBind ext fs with
+  | mk st vals1 =>
+    rw [h1] at h
+    cases st with
+    | ok =>
+      simp only at h
+      exact ⟨vals1, rfl, C08_struct_exact ext _ vals h⟩
+    | bad => simp at h
+    | panic => simp at h
 
 /-- `parseInt_denotes` in the form of the design: one direction of `parseInt_spec` -/
 theorem parseInt_denotes (s : List Char) (b : Nat) (hb : okBits b) (v : Int)
@@ -939,12 +987,24 @@ example : vbRun noExt ⟨0, false⟩ [.call exBad, .call exGood, .call exSliceBa
 -- C08_slice_all_or_nothing: both alternatives occur
 example : callStep noExt ⟨0, true⟩ exSlice = (⟨0, true⟩, .slice (some [.int 1, .int (-2), .int 3])) := by decide +kernel
 example : callStep noExt ⟨0, true⟩ exSliceBad = (⟨1, true⟩, .slice none) := by decide
--- struct binder: first error aborts, later fields keep their zero value; empty text is zero
-example : structBind noExt [⟨.scalar, .num (.structInt .w8), [['1','2','7']]⟩,
-      ⟨.ptr, .num (.structUint .w16), [['6','5','5','3','6']]⟩, ⟨.slice, .bool, [['t']]⟩]
+-- struct binder: first error aborts, later fields keep what they held; empty text is zero
+example : structBind noExt [⟨.scalar, .num (.structInt .w8), .one (.int 0), some [['1','2','7']]⟩,
+      ⟨.ptr, .num (.structUint .w16), .nil, some [['6','5','5','3','6']]⟩, ⟨.slice, .bool, .nil, some [['t']]⟩]
     = (.bad, [.one (.int 127), .one (.int 0), .nil]) := by decide
-example : structBind noExt [⟨.scalar, .num (.structInt .w8), [[]]⟩, ⟨.slice, .num (.structUint .w64), [['7'], []]⟩]
+example : structBind noExt [⟨.scalar, .num (.structInt .w8), .one (.int 0), some [[]]⟩,
+      ⟨.slice, .num (.structUint .w64), .nil, some [['7'], []]⟩]
     = (.ok, [.one (.int 0), .many [.int 7, .int 0]]) := by decide
-example : (structBind noExt [⟨.scalar, .bool, []⟩]).1 = .panic := by decide
+example : (structBind noExt [⟨.scalar, .bool, .one (.bool false), some []⟩]).1 = .panic := by decide
+-- pre-populated destination: empty text stores false / 0 over true / 7, a missing key leaves the
+-- field alone, a failing conversion leaves the old value (pointer stays as it was)
+example : structBind noExt [⟨.scalar, .bool, .one (.bool true), some [[]]⟩,
+      ⟨.scalar, .num (.structInt .w32), .one (.int 7), some [[]]⟩,
+      ⟨.scalar, .num (.structInt .w32), .one (.int 7), none⟩,
+      ⟨.ptr, .num (.structInt .w8), .one (.int 7), some [['1','2','8']]⟩,
+      ⟨.slice, .bool, .many [.bool true], some [['t']]⟩]
+    = (.bad, [.one (.bool false), .one (.int 0), .one (.int 7), .one (.int 7), .many [.bool true]]) := by decide
+-- path param `verbose=true`, then query `verbose=` : the field ends up false
+example : structBind2 noExt [⟨.scalar, .bool, .one (.bool false), some [['t','r','u','e']]⟩] [some [[]]]
+    = (.ok, [.one (.bool false)]) := by decide
 
 end C08
